@@ -594,8 +594,16 @@ func (u *Upstream) readAckLoop(ctx context.Context) {
 	}()
 
 	for ack := range u.ackOrDone(ctx) {
-		u.aliasCh <- ack.DataIDAliases
-		u.resCh <- ack.Results
+		select {
+		case u.aliasCh <- ack.DataIDAliases:
+		case <-ctx.Done():
+			return
+		}
+		select {
+		case u.resCh <- ack.Results:
+		case <-ctx.Done():
+			return
+		}
 	}
 }
 
